@@ -102,7 +102,7 @@ func init() {
 					}
 				}
 			}
-			runWalks(c, c.Scale(20, 400), c.Scale(70, 120), 35, true, "C06")
+			runWalksOpt(c, c.Scale(20, 400), WalkOpts{Steps: c.Scale(70, 120), Hostile: 35, NoSysDest: true, Reconfigure: true}, "C06")
 		},
 	})
 
